@@ -49,6 +49,8 @@ func c06(c *Ctx) {
 		return
 	}
 	tr := an.NewTracer()
+	r.Rule("R06.P", "pq is factorised as a big integer: nothing in SplitPQ narrows a pq-sized value to int64 (pq is a product of two primes below 2^32 and needs all 64 bits), and every panic-capable operation of the handshake's arithmetic helpers is discharged or accepted", 2)
+	c06Arithmetic(c)
 	r.Rule("R06.N", "numbers the server sends as TL bytes (pq, g_a, dh_prime) are only ever converted with SetBytes or copied into TL bytes fields: no length test, comparison or slicing of the transmitted form, whose leading zero bytes are the sender's choice", 3)
 	c06WireNumbers(c, mk)
 	r.Rule("R06.F", "a fingerprint of the configured key anywhere in the server's list is accepted: once an element compared equal, the not-found abort cannot happen (early exit, or a flag that stays true)", 1)
@@ -451,4 +453,38 @@ func c06WireNumbers(c *Ctx, mk *ssa.Function) {
 	if len(n) == 0 {
 		r.Undecide("R06.N", "wire-number", c.pos(mk.Pos()), "no load of ResPQ.Pq / ServerDHInnerData.GA / DhPrime found in makeAuthKey")
 	}
+}
+
+// c06Arithmetic: R06.P.
+func c06Arithmetic(c *Ctx) {
+	r := c.R
+	if sp := c.fn("R06.P", load.MathPkg, "", "SplitPQ"); sp != nil {
+		n := 0
+		for _, cs := range an.Calls(sp) {
+			if cs.Name == "(*math/big.Int).Int64" || cs.Name == "(*math/big.Int).IsInt64" {
+				n++
+				r.Violate("R06.P", sprintf("pq-narrowed:%s#%d", cs.Name[strings.LastIndex(cs.Name, ".")+1:], n), c.pos(cs.Pos()),
+					"a big integer of SplitPQ is converted to int64: for pq >= 2^63 the value wraps to a negative number (and a random draw bounded by it panics)")
+			}
+		}
+		if n == 0 {
+			r.Hold("R06.P", "pq-narrowed:none", c.pos(sp.Pos()), "no Int64 conversion in SplitPQ")
+		}
+	}
+	// census of the arithmetic helpers the exchange calls (all kinds)
+	var entries []*ssa.Function
+	for _, t := range []struct{ pkg, name string }{{load.MathPkg, "SplitPQ"}, {load.MathPkg, "MakeGAB"}, {load.MathPkg, "DoRSAencrypt"}, {load.MathPkg, "BigIntFixedBytes"}, {load.MathPkg, "Xor"}, {load.KeysPkg, "RSAFingerprint"}} {
+		if f := c.P.Func(t.pkg, "", t.name); f != nil {
+			entries = append(entries, f)
+		}
+	}
+	stop := func(f *ssa.Function) bool {
+		p := load.FuncPkgPath(f)
+		return p != load.MathPkg && p != load.KeysPkg
+	}
+	fns := c.censusRegion(entries, stop)
+	n, d, a := c.runCensus("R06.P", fns, nil, nil, "C16/R16.P", "C04/R04.P")
+	r.Extra["arith_census_sites"] = n
+	r.Extra["arith_census_discharged"] = d
+	r.Extra["arith_census_accepted"] = a
 }
